@@ -195,6 +195,10 @@ PROPS["C19"] = {
     "units": [
         {"name": "c19-rpc-robustness", "pkg": ROOT, "run": "TestVerifC19", "timeout": {"quick": 900, "thorough": 3400}},
         {"name": "c19-fresh-account-sequences", "pkg": ROOT, "run": "TestVerifC19Fresh", "timeout": {"quick": 900, "thorough": 2400}},
+        {"name": "c19-concurrent-requests", "pkg": ROOT, "run": "TestVerifC19Concurrent", "race": True, "race_decides": True,
+         "race_anchors": ["api_contact.go", "api_contactrequest.go", "api_app.go", "api_group.go", "api_multimember.go", "api_event.go",
+                          "api_debug.go", "api_verified_credentials.go", "api_replication.go", "api_client.go", "service.go", "service_group.go"],
+         "timeout": {"quick": 900, "thorough": 2400}},
         {"name": "c19-helpers", "pkg": ROOT, "run": "TestVerifC19Helpers", "timeout": {"quick": 600, "thorough": 1800}},
         {"name": "c19-rpc-sweep", "pkg": ROOT, "run": "TestVerifC19Sweep", "timeout": {"quick": 1500, "thorough": 3400}},
     ],
